@@ -1,4 +1,4 @@
-import PyhfModel.Tensor
+import PyhfModel.Decl
 import PyhfDriver.Json
 open Lean
 namespace Pyhf.Driver
@@ -73,6 +73,9 @@ def configJson (m : Model Float) : Json :=
     ("auxdata", putFs (auxData m.ps)), ("auxdata_order", putSs (auxOrder m.ps)),
     ("nmaindata", cfg.nmain), ("nauxdata", (auxData m.ps).length),
     ("poi_index", match m.poiIndex with | some i => (i : Json) | none => Json.null),
+    ("wf", Json.mkObj [("histoBlocksOK", histoBlocksOK m.spec m.cfg), ("binwiseOK", binwiseOK m),
+                       ("singleLumi", singleLumi m), ("singularCovers", singularCovers m),
+                       ("clipSampleNonPos", clipSampleNonPos m)]),
     ("paramsets", Json.arr (m.ps.map fun p => Json.mkObj [
         ("name", p.name), ("n", p.n), ("is_scalar", p.isScalar), ("type", p.ptype.str),
         ("sigmas", match p.sigmas with | some s => putFs s | none => Json.null),
@@ -91,9 +94,11 @@ def runQuery (m : Model Float) (q : Json) : R Json := do
   | "expected" =>
     let θ ← fldFs q "pars"
     let par := parOf θ
+    let wantD := (fldOpt q "decl").isSome
     pure (Json.mkObj [("actual", putFs (expectedActual P m par)),
                       ("by_sample", Json.arr ((expectedBySample P m par).map putFs).toArray),
-                      ("aux", putFs (expectedAux m par))])
+                      ("aux", putFs (expectedAux m par)),
+                      ("declarative", if wantD then putFs (D.expected P m par) else Json.null)])
   | "expected_batch" =>
     let rows ← (← fldA q "rows").mapM getFs
     let out := (List.range rows.length).map fun t =>
